@@ -152,10 +152,10 @@ type historyGen struct {
 	u      *storeUniverse
 	recent []*Tup
 	// transports for create/patch and for delete-query
-	writeVias  []string
-	deleteVias []string
-	maxPatch   int
-	pEmptyDel  float64 // probability that a delete-query is the empty query
+	writeVias   []string
+	deleteVias  []string
+	maxPatch    int
+	pEmptyDel   float64 // probability that a delete-query is the empty query
 	pLargePatch float64
 }
 
